@@ -158,6 +158,18 @@ CHECKS = {
             "valid line as an item in line order, no item without a line, every other non-ignorable line reported in a log "
             "record (or represented by an item), failure only with an over-limit wildcard (ACL) or no valid member (group).",
             "7 (C12)"),
+    "C18": ("model_checking",
+            "TLA+ spec (RangeGen: request language, refusals, exact-cover postcondition over interval semantics) with the "
+            "interval and reader lemmas model-checked by TLC; seeded requests run through range_ports()/range_protocols(); "
+            "output lines parsed and judged by TLC at PMax=65535",
+            "The lemmas the postcondition rests on (interval semantics = sets for every operator/operand tuple, Canon/union, "
+            "reader inverts writer) are model-checked; seeded requests (singles and ranges that are adjacent, overlapping, "
+            "repeated, near 1 and 65535) x side(s) x template operator (none, eq, and the refused gt / lt / range) x tcp/udp x "
+            "port_count 0..4 x both range policies x platform x names/numbers are run; TLC (Trace_C18) parses every output "
+            "line and requires validity for the platform, equality with the template outside the generated field, the "
+            "ports-per-line limit, the range-versus-eq policy, exact equality of the union of denotations with the "
+            "requested set per side, and refusal exactly where documented; protocols likewise (one line per number).",
+            "7 (C18)"),
 }
 
 NOT_YET = {
